@@ -357,3 +357,25 @@ fn check_layout(name: &str, load: fn(&mut SparqlDatabase, &str)) {
     db.parse_rdf(text);
     report("parse_rdf", "the same RDF/XML document loaded a second time", &lexical(&db), &want);
 }
+
+// ---- RDF/XML: text-valued properties, the built-in rdf:type / rdfs:label / rdfs:subClassOf elements between generic ones ----
+#[test] fn w__parse_rdf__text_valued_and_builtin_properties() {
+    let head = "<?xml version=\"1.0\"?>\n<rdf:RDF xmlns:rdf=\"http://www.w3.org/1999/02/22-rdf-syntax-ns#\" xmlns:rdfs=\"http://www.w3.org/2000/01/rdf-schema#\" xmlns:e=\"http://e/\">\n";
+    // every order of three property elements taken from: generic text (twice the same name), rdfs:label text, generic resource
+    let elems: [(&str, &str, &str); 4] = [
+        ("<e:nick>first</e:nick>", "http://e/nick", "first"), ("<rdfs:label>Label</rdfs:label>", "LABEL", "Label"),
+        ("<e:nick>second</e:nick>", "http://e/nick", "second"), ("<e:knows rdf:resource=\"http://e/o\"/>", "http://e/knows", "http://e/o"),
+    ];
+    // what the loader stores for rdfs:label when it stands alone (its own convention) - taken from a one-element document
+    let label_pred = { let mut db = SparqlDatabase::new(); db.parse_rdf(&format!("{}<rdf:Description rdf:about=\"http://e/s\">{}</rdf:Description>\n</rdf:RDF>\n", head, elems[1].0)); let l = lexical(&db); assert!(l.len() == 1, "a single rdfs:label element loads {:?}", l); l.into_iter().next().unwrap().1 };
+    for a in 0..4 { for b in 0..4 { for c in 0..4 {
+        if a == b || b == c || a == c { continue; }
+        let text = format!("{}<rdf:Description rdf:about=\"http://e/s\">{}{}{}</rdf:Description>\n<rdf:Description rdf:about=\"http://e/t\">{}</rdf:Description>\n</rdf:RDF>\n", head, elems[a].0, elems[b].0, elems[c].0, elems[0].0);
+        let mut want = L::new();
+        for i in [a, b, c] { want.insert(("http://e/s".to_string(), if elems[i].1 == "LABEL" { label_pred.clone() } else { elems[i].1.to_string() }, elems[i].2.to_string())); }
+        want.insert(("http://e/t".to_string(), "http://e/nick".to_string(), "first".to_string()));
+        let mut db = SparqlDatabase::new();
+        db.parse_rdf(&text);
+        report("parse_rdf", &format!("one description with the property elements {} {} {} (and a second description)", elems[a].0, elems[b].0, elems[c].0), &lexical(&db), &want);
+    }}}
+}
